@@ -297,6 +297,7 @@ def write_evidence(spec, tier, base_seed, results, harness_errors, wall, violati
     shapes = set()
     schedules = set()
     foreign = Counter()
+    sums = Counter()
     oos = 0
     samples = []
     for r in results:
@@ -310,6 +311,9 @@ def write_evidence(spec, tier, base_seed, results, harness_errors, wall, violati
             if r.get("nontrivial"):
                 nontrivial_digests.add(r["digest"])
         ex = r.get("extra", {})
+        for k_, v_ in ex.items():
+            if isinstance(v_, int) and not isinstance(v_, bool):
+                sums[k_] += v_
         if ex.get("shape"):
             shapes.add(ex["shape"])
         for s in ex.get("schedules", []):
@@ -353,6 +357,9 @@ def write_evidence(spec, tier, base_seed, results, harness_errors, wall, violati
         "harness_errors": harness_errors[:5],
         "known_findings_hit": known_lines,
     }
+    if sums:
+        cov["enumerated_per_history_totals"] = dict(sorted(sums.items()))
+        cov["per_history_enumeration_complete"] = spec.level == "fault_enumeration"
     if extra:
         cov.update(extra)
     doc = {
